@@ -166,6 +166,19 @@ def api_level(chk, tier):
                                       f"import sys, os; sys.path.insert(0, {REPO!r}); sys.path.insert(0, '/verif')\nfrom wcmatch import glob\nfrom vlib.harness import trees\n"
                                       f"with trees.Tree(trees.NAMED[{tname!r}]) as t:\n    fd = os.open(t.root, os.O_RDONLY | os.O_DIRECTORY)\n    b = glob.glob({enc(p)!r}, flags={fl}, root_dir=os.fsencode(t.root))\n"
                                       f"    try:\n        a = glob.glob({enc(p)!r}, flags={fl}, dir_fd=fd)\n    except Exception as e:\n        a = repr(e)\n    print(a, b)\n    sys.exit(0 if a == b else 1)\n")
+            # folder-exclude patterns, also under DIRPATHNAME (directories are shown with a separator of the root's type)
+            for ep, fl in (('d', WM.RV), ('d', WM.RV | WM.DP), ('d/e|c', WM.RV | WM.DP | WM.G), ('**/e', WM.RV | WM.DP | WM.G), ('.*', WM.RV | WM.HD | WM.DP)):
+                n += 1
+                chk.case(key=('tree-wcmatch-exclude', tname, ep, fl))
+                wa = WM.WcMatch(t.root, '*', ep, flags=fl)
+                wb = WM.WcMatch(os.fsencode(t.root), b'*', ep.encode(), flags=fl)
+                a, b = wa.match(), wb.match()
+                if [os.fsencode(x) for x in a] != b or wa.get_skipped() != wb.get_skipped():
+                    chk.violation(dict(obligation='C18.bounded.wcmatch_bytes_root', tree=tname, pattern='* excluding ' + ep, flags=fl, witness=ep),
+                                  f'WcMatch("*", exclude {ep!r}, flags={fl:#x}) on {tname}: str {len(a)} files / skipped {wa.get_skipped()}, bytes {len(b)} / {wb.get_skipped()}',
+                                  f"import sys, os; sys.path.insert(0, {REPO!r}); sys.path.insert(0, '/verif')\nfrom wcmatch import wcmatch\nfrom vlib.harness import trees\n"
+                                  f"with trees.Tree(trees.NAMED[{tname!r}]) as t:\n    a = wcmatch.WcMatch(t.root, '*', {ep!r}, flags={fl}).match()\n    b = wcmatch.WcMatch(os.fsencode(t.root), b'*', {ep.encode()!r}, flags={fl}).match()\n"
+                                  f"    print(len(a), len(b))\n    sys.exit(0 if [os.fsencode(x) for x in a] == b else 1)\n")
             for fp in ['*.txt', '*', '!*.txt', 'a|!b*', '', None]:
                 for fl in (WM.RV, WM.RV | WM.HD, WM.RV | WM.FP | WM.G):
                     n += 1
